@@ -248,6 +248,34 @@ def run_ops_shared_config(scratch, doc, text, combos):
     return out
 
 
+def run_op_logged(scratch, doc, text, mode="all", addr_only=True):
+    """The operation asked for its yes/no answer (the default return mode, the one the command line uses): the matches
+    are then REPORTED through the package's logger (`Matched address: …`).  Returns (outcome, reported list)."""
+    path = scratch.write(dump_yaml(doc), ".yaml")
+    inp = scratch.write(text, ".s")
+    jlog = logging.getLogger("jasm.logging_config")
+    seen = []
+
+    class H(logging.Handler):
+        def emit(self, record):
+            if isinstance(record.msg, str) and record.msg.startswith("Matched address") and record.args:
+                seen.append(record.args[0] if isinstance(record.args, tuple) else record.args)
+    h = H()
+
+    def go():
+        cfg = MatchConfig(pattern_pathstr=path, input_file=inp, input_file_type=InputFileType.assembly,
+                          return_only_address=addr_only, return_mode=RET["bool"], matching_mode=MODE[mode])
+        jlog.addHandler(h)
+        jlog.setLevel(logging.INFO)
+        try:
+            return MasterOfPuppets(cfg).perform_matching()
+        finally:
+            jlog.setLevel(logging.CRITICAL)
+            jlog.removeHandler(h)
+    r = guarded(go)
+    return r, list(seen)
+
+
 def expand_macros(macros, tree):
     return guarded(lambda: MacroExpander().resolve_all_macros(macros=macros, pattern_tree=tree))
 
